@@ -66,3 +66,22 @@ PROPS["C13"] = {
         {"pkg": RL, "func": "VerifH_C13_wait", "opts": _c13, "thorough_only": True, "covers": ["wait-during-penalty", "wait-first-iteration", "wait-second-iteration"]},
     ],
 }
+
+MD = "pkg/models"
+PROPS["C11"] = {
+    "level": "model_checking",
+    "explanation": "the real pkg/models tree code (CheckConsistency, DedupeItems, markCompleted, CompleteAndCheck, GetMaxDepth, GetNodesAtLevel, AddChild, RemoveChild) "
+                   "is executed symbolically on trees whose SHAPE (children counts), STATUSES (8 values per node) and URL classes are solver variables; the model's own "
+                   "CheckConsistency, executed symbolically, is the assumed invariant; reference predicates written in the harness are the oracle. One run covers every tree in the bound.",
+    "bounds": "trees up to 3 levels x 2 children (7 nodes) and 2 levels x 4 children; thorough adds 4 levels x 2 (15 nodes) for completion; 3 URL classes; one operation from an arbitrary consistent tree",
+    "outside": "larger trees; URL.String() canonicalisation (the cached string is set directly); concurrent mutation of one tree (the pipeline hands a seed to one goroutine at a time)",
+    "assumptions": COMMON_ASSUME + ["item ids are distinct (uuid contract)", "append growth: capacity doubles (aliasing of re-sliced children arrays follows that policy)"],
+    "harnesses": [
+        {"pkg": MD, "func": "VerifH_C11_dedupe_small", "covers": ["dedupe-removed-a-node"]},
+        {"pkg": MD, "func": "VerifH_C11_dedupe_wide", "covers": ["dedupe-removed-a-node"], "thorough_only": True},
+        {"pkg": MD, "func": "VerifH_C11_complete_small", "covers": ["complete-true", "complete-false"]},
+        {"pkg": MD, "func": "VerifH_C11_complete_deep", "covers": ["complete-true", "complete-false"], "thorough_only": True},
+        {"pkg": MD, "func": "VerifH_C11_levels", "covers": ["three-levels"]},
+        {"pkg": MD, "func": "VerifH_C11_addremove", "covers": ["added", "removed"]},
+    ],
+}
